@@ -660,7 +660,7 @@ fn gen_fn(ctx: &mut Ctx, fs_: &FnSpec) -> R<()> {
     }
     // attributes from the sidecar (inserted before the fn)
     for a in &fs_.attrs {
-        v.push(span.0, span.0, &format!("{a}\n    "), "E2");
+        v.edits.push(Edit { start: span.0, end: span.0, text: format!("{a}\n    "), rule: "E2".into(), seq: 0, marks: vec![] });
     }
 
     // fn-level clauses
